@@ -2,6 +2,7 @@ package codec
 
 import (
 	"bytes"
+	"errors"
 	"fmt"
 	"io"
 	"reflect"
@@ -433,6 +434,9 @@ func TestC09(t *testing.T) {
 
 	// two dialects with different definitions of ids 0 and 66 side by side
 	c09twins(rep, r, genv)
+	// successive links of one endpoint (the link goes down and comes back): every one starts counting at 0; and what the
+	// peer sends (its protocol version) has no say in what the node originates
+	c09generations(rep, r, genv)
 
 	// initialization refusals
 	type initCase struct {
@@ -620,4 +624,111 @@ func c09twins(rep *vh.Report, r *vh.RNG, main *gateEnv) {
 		rep.Count("twin_dialect_node_frames_"+names[i], len(emitted))
 	}
 	rep.Distinct("twin-dialects")
+}
+
+var errC09Session = errors.New("link went down")
+
+// c09generations: one custom endpoint whose link fails and is re-established several times; in each generation the node
+// originates more than 256 frames (and the peer sends v1 and v2 frames of its own). Each generation is a link of its own.
+func c09generations(rep *vh.Report, r *vh.RNG, genv *gateEnv) {
+	var dmsgs []message.Message
+	for _, mi := range genv.sorted() {
+		dmsgs = append(dmsgs, mi.Msg)
+	}
+	for _, version := range []int{2, 1} {
+		conf := c09conf{version: version, sys: 77, comp: 5}
+		tr := fake.NewTransport("gen")
+		node := &gomavlib.Node{Endpoints: []gomavlib.EndpointConf{gomavlib.EndpointCustom{ReadWriteCloser: tr}}, Dialect: &dialect.Dialect{Version: 3, Messages: dmsgs},
+			OutVersion: gomavlib.Version(version), OutSystemID: conf.sys, OutComponentID: conf.comp, HeartbeatDisable: true}
+		if err := node.Initialize(); err != nil {
+			rep.Violation("api=node what=init:valid", "a valid configuration was refused: "+err.Error(), conf.String())
+			return
+		}
+		opens, closes := make(chan *gomavlib.Channel, 16), make(chan struct{}, 16)
+		evDone := make(chan struct{})
+		go func() {
+			defer close(evDone)
+			for e := range node.Events() {
+				switch ev := e.(type) {
+				case *gomavlib.EventChannelOpen:
+					opens <- ev.Channel
+				case *gomavlib.EventChannelClose:
+					closes <- struct{}{}
+				}
+			}
+		}()
+		v2 := version == 2
+		written := 0
+		var bounds []int
+		for gen := 0; gen < 5; gen++ {
+			var ch *gomavlib.Channel
+			select {
+			case ch = <-opens:
+			case <-time.After(3 * time.Second):
+				rep.Inconclusive("C09 generations: the endpoint did not provide its next channel")
+				gen = 99
+				continue
+			}
+			// the peer talks too, in both protocol versions
+			hb := &ref.FrameSpec{Version: 1 + gen%2, Seq: byte(gen), Sys: 3, Comp: 1, MsgID: 0, Payload: []byte{0, 0, 0, 0, 2, 12, 0, 4, 3}}
+			if hb.Version == 2 {
+				hb.Payload = ref.Truncate(hb.Payload)
+			}
+			ref.Seal(hb, 50, nil)
+			tr.Feed(ref.Serialize(hb))
+			n := 260 + r.Intn(80)
+			for i := 0; i < n; i++ {
+				mi := genv.sorted()[r.Intn(len(genv.sorted()))]
+				for !v2 && mi.Msg.GetID() > 255 {
+					mi = genv.sorted()[r.Intn(len(genv.sorted()))]
+				}
+				val := reflect.New(mi.Type)
+				vh.FillMessage(r, mi.Layout, val, vh.ModeMixed)
+				if i%2 == 0 {
+					_ = node.WriteMessageAll(val.Interface().(message.Message))
+				} else {
+					_ = node.WriteMessageTo(ch, val.Interface().(message.Message))
+				}
+				if i%32 == 31 {
+					tr.WaitWrites(written+i+1, 2*time.Second)
+				}
+				if i == n/2 {
+					tr.Feed(ref.Serialize(hb)) // once more in mid-stream
+				}
+			}
+			written += n
+			if got := tr.WaitWrites(written, 2*time.Second); got != written {
+				// fewer frames than accepted writes: what did come out is still judged (below); the shortfall itself is
+				// C11's business (nothing is dropped below the queue bound) and is only noted here
+				rep.Observe(fmt.Sprintf("C09 generations: %d of %d accepted writes came out on the link (see property C11)", got, written))
+				bounds = append(bounds, got)
+				break
+			}
+			bounds = append(bounds, written)
+			tr.FeedError(errC09Session)
+			select {
+			case <-closes:
+			case <-time.After(3 * time.Second):
+				rep.Inconclusive("C09 generations: no close event after the link went down")
+				gen = 99
+			}
+		}
+		node.Close()
+		<-evDone
+		ws := tr.Writes()
+		start := 0
+		for gi, end := range bounds {
+			if end > len(ws) {
+				break
+			}
+			var emitted []c09emitted
+			for _, w := range ws[start:end] {
+				emitted = append(emitted, c09emitted{wire: w.Data})
+			}
+			rep.Distinct(conf.String(), "node-generation", gi)
+			rep.Count("node_link_generations", 1)
+			c09checkLink(rep, "node", conf, genv, emitted, -1)
+			start = end
+		}
+	}
 }
